@@ -9,7 +9,8 @@
 (* SUB-TIMESTEP; from the outputs every TIMESTEP.  All floats are RANK-    *)
 (* encoded per case after merging floats equal to 1e-12, so equal ranks    *)
 (* mean "equal to 1e-12"; no arithmetic is done on ranks.                  *)
-(*   trial     dem; r1, lo1, hi1: release, minimum- and maximum-release    *)
+(*   trial     dem (the demand handed to the release rule), demin (the     *)
+(*             demand input of the timestep); r1, lo1, hi1: release, minimum- and maximum-release    *)
 (*             curve at the volume before the sub-timestep; r2, lo2, hi2:  *)
 (*             the same at the trial end volume (curves looked up by the   *)
 (*             engine in the case's own tables)                            *)
@@ -42,6 +43,8 @@ Case == /\ l <= Len(Trace) /\ E.ev = "case" /\ zero' = E.zero /\ full' = E.full 
 ReleaseRule(d, lo, hi, r) == IF d < lo THEN r = lo ELSE IF d > hi THEN r = hi ELSE r = d
 Trial == /\ l <= Len(Trace) /\ E.ev = "trial"
          /\ viol' = viol \cup (IF ReleaseRule(E.dem, E.lo1, E.hi1, E.r1) /\ ReleaseRule(E.dem, E.lo2, E.hi2, E.r2) THEN {} ELSE {<<l, "release">>})
+                         \* the demand the rule is applied to is the demand input of the timestep, nothing else
+                         \cup (IF E.dem = E.demin THEN {} ELSE {<<l, "demand">>})
          /\ l' = l + 1 /\ UNCHANGED <<zero, full, reported>>
 Spill == /\ l <= Len(Trace) /\ E.ev = "spill"
          /\ viol' = viol \cup (IF (E.excess > zero => E.v > full) /\ E.excess >= zero /\ E.excess <= E.room THEN {} ELSE {<<l, "spill">>})
